@@ -242,6 +242,15 @@ type result struct {
 	Hung  bool     ` + "`json:\"hung\"`" + `
 }
 
+func tokenName(i int) (s string) {
+	defer func() {
+		if r := recover(); r != nil {
+			s = "PANIC"
+		}
+	}()
+	return _TokenToString(i)
+}
+
 func main() {
 	in := bufio.NewScanner(os.Stdin)
 	in.Buffer(make([]byte, 1<<20), 1<<20)
@@ -266,8 +275,8 @@ func main() {
 				break
 			}
 		}
-		for i := 0; i < 40; i++ {
-			res.Names = append(res.Names, _TokenToString(i))
+		for i := -2; i < 40; i++ {
+			res.Names = append(res.Names, tokenName(i))
 		}
 		out.Encode(res)
 	}
@@ -387,13 +396,13 @@ func TestGeneratedLexer(t *testing.T) {
 			if k == 0 {
 				// C19: constants and _TokenToString
 				want := append([]string{"EOF", "ERROR"}, names...)
-				for j := 0; j < 40; j++ {
+				for j := -2; j < 40; j++ {
 					w := "???"
-					if j < len(want) {
+					if j >= 0 && j < len(want) {
 						w = want[j]
 					}
-					if j >= len(got.Names) || got.Names[j] != w {
-						rep.fail("C19/token-numbers-dense-in-declaration-order", label, fmt.Sprintf("_TokenToString(%d) = %q, want %q", j, at(got.Names, j), w))
+					if at(got.Names, j+2) != w {
+						rep.fail("C19/token-numbers-dense-in-declaration-order", label, fmt.Sprintf("_TokenToString(%d) = %q, want %q", j, at(got.Names, j+2), w))
 						break
 					}
 				}
